@@ -100,7 +100,16 @@ def owner_layout(chk, ex, cls, found):
     _wrappers.row(chk, name + ":shared-constructor-succeeds", bool(owners), None, found)
     if not owners:
         return None
-    oref, ost = owners[0]
+    first = None
+    for ci, (oref, ost) in enumerate(owners):
+        # every successful path of the constructor (library calls such as np.require fork: they may
+        # hand back their argument or a copy of it)
+        r = _owner_layout_path(chk, ex, cls, name if ci == 0 else "%s[constructor path %d]" % (name, ci), a, oref, ost, found)
+        first = first if first is not None else r
+    return first
+
+
+def _owner_layout_path(chk, ex, cls, name, a, oref, ost, found):
     of = ost.objs[oref.oid]["fields"]
     shm = of.get("shm")
     _wrappers.row(chk, name + ":owner-keeps-its-block", isinstance(shm, Ref), None, found)
@@ -182,6 +191,29 @@ def _attached_path(chk, ex, cls, name, o, eff, pref, of, ost, oref, shm, size, f
         _wrappers.row(chk, "%s:attached:%s:same-dtype-and-rank" % (name, fld), x.dtype == y.dtype and len(x.shape) == len(y.shape), "%s/%d vs %s/%d" % (x.dtype, len(x.shape), y.dtype, len(y.shape)), found)
         for i, (u, v) in enumerate(zip(x.shape, y.shape)):
             chk.prove("%s:attached:%s:same-shape%d" % (name, fld, i), apc, u == v, tag="G")
+    # one state for all handles: what a handle answers must not be remembered across a write made
+    # through another handle of the same block - owner.query(); view.add(); owner.query() asks the
+    # kernel again (heavy hitters: their cache is keyed on n_added, which lives in the block - C13)
+    if cls != "HeavyHitters":
+        k1, k2 = _wrappers.key_sym("k1"), _wrappers.key_sym("k2")
+        qargs = [] if cls == "HyperLogLog" else [k1]
+        for who, first, second in (("owner", oref, pref), ("view", pref, oref)):
+            st = o.state.fork()
+            st.pc += [X.BYTESLEN(k1.t) >= 0, X.BYTESLEN(k2.t) >= 0]
+            ok, why = True, []
+            for o1, e1 in _glue.call_method(ex, st, first, "query", qargs):
+                if o1.kind != "return":
+                    continue
+                want = [k[1] for k in _wrappers.kernel_calls(e1)]
+                for o2, e2 in _glue.call_method(ex, o1.state.fork(), second, "add", [k2]):
+                    if o2.kind != "return":
+                        continue
+                    for o3, e3 in _glue.call_method(ex, o2.state.fork(), first, "query", qargs):
+                        got = [k[1] for k in _wrappers.kernel_calls(e3)]
+                        if o3.kind != "return" or got != want or not want:
+                            ok = False
+                            why.append("first query: %s, after the other handle's add: %s" % (want, got))
+            _wrappers.row(chk, "%s:%s.query(); other-handle.add(); %s.query() asks the kernel again" % (name, who, who), ok, why[:2], found)
     # __del__: the owner closes and unlinks its own block; a view only closes; arrays are dropped first
     for who, ref, state, fields in (("owner", oref, ost.fork(), of), ("attached", pref, o.state.fork(), af)):
         douts = _glue.call_method(ex, state, ref, "__del__", [])
@@ -250,6 +282,11 @@ def oracle(chk):
         keys = _oracle.KEYS[:7]
         seq = [(rng.choice(["o", "v"]), rng.choice(keys), rng.choice([1, 2, 3])) for _ in range(10)]
         for who, k, v in seq:
+            # every handle is asked before the other one writes: nothing it answers may be remembered
+            if kind == "hll":
+                owner.query(), view.query()
+            elif kind == "cms":
+                owner.query(k), view.query(k)
             (owner if who == "o" else view).add(k, v)
             twin.add(k, v)
         bad = None
@@ -265,6 +302,8 @@ def oracle(chk):
             bad = "n_added differs: owner %d view %d twin %d" % (int(owner.n_added()), int(view.n_added()), int(twin.n_added()))
         elif kind == "cms" and any(float(owner.query(k)) != float(view.query(k)) for k in keys):
             bad = "owner.query != view.query"
+        elif kind == "hll" and not (float(owner.query()) == float(view.query()) == float(twin.query())):
+            bad = "query() differs between handles of one block / the in-memory twin: owner %r view %r twin %r" % (float(owner.query()), float(view.query()), float(twin.query()))
         import os
         import tempfile
 
@@ -313,6 +352,20 @@ def oracle(chk):
         if bad:
             return {"key": desc, "observed": bad, "how": "bounded oracle on the real classes (odd shapes)"}
     return None
+
+
+def attach_helper_part(chk, ex, found):
+    """helpers.attach_shared_memory rebuilds a sketch with provably the parameters of the owner it is
+    attached to, for every class (used by C08: the workers see the parent's sketches through it)"""
+    for cls in ARRAYS:
+        try:
+            lay = owner_layout(chk, ex, cls, found)
+            if lay is None:
+                continue
+            oref, ost, of, shm, size = lay
+            _attach_helper(chk, ex, cls, cls, of, ost, size, found)
+        except X.Unsupported as e:
+            chk.undecided.append((cls + " attach_shared_memory", "unsupported construct in glue: %s" % e))
 
 
 def loaded_shared(chk, ex, cls, found):
